@@ -14,6 +14,7 @@ import (
 func setPlaceholderNames(n *ast.MsgNode) {
 	// Step 1: Determine representative nodes and build preliminary map
 	var (
+		baseNames           []string // base names in order of first appearance
 		baseNameToRepNodes  = make(map[string][]ast.Node)
 		equivNodeToRepNodes = make(map[ast.Node]ast.Node)
 	)
@@ -35,6 +36,7 @@ func setPlaceholderNames(n *ast.MsgNode) {
 		}
 
 		if nodes, ok := baseNameToRepNodes[baseName]; !ok {
+			baseNames = append(baseNames, baseName)
 			baseNameToRepNodes[baseName] = []ast.Node{node}
 		} else {
 			var isNew = true
@@ -54,10 +56,16 @@ func setPlaceholderNames(n *ast.MsgNode) {
 
 	// Step 2: Build final maps of name to representative node
 	var nameToRepNodes = make(map[string]ast.Node)
-	for baseName, nodes := range baseNameToRepNodes {
+	// (iterate in order of first appearance, not in map order, so that the names and
+	// therefore the message id do not vary from run to run.)
+	for _, baseName := range baseNames {
+		var nodes = baseNameToRepNodes[baseName]
 		if len(nodes) == 1 {
-			nameToRepNodes[baseName] = nodes[0]
-			continue
+			if _, taken := nameToRepNodes[baseName]; !taken {
+				nameToRepNodes[baseName] = nodes[0]
+				continue
+			}
+			// the name was already handed out as a suffixed name (e.g. X_1); number this one too.
 		}
 
 		var nextSuffix = 1
